@@ -767,6 +767,41 @@ mod archives {
         }
     }
 
+    fn crafted(small: &Base) -> Vec<(&'static str, Vec<u8>)> {
+        const P: u64 = 46;                       // 30 + 8 * (1 + 1)
+        let file = |idx0: u64, free: u64, blocks: &[Vec<u8>]| {
+            let mut d = small.bytes[..22].to_vec();
+            for x in [1u64, idx0, free] { d.extend(x.to_ne_bytes()); }
+            for b in blocks { d.extend_from_slice(b); }
+            d
+        };
+        let block = |size: u64, next: u64, empty: bool, name: &[u8], name_len: u64, data: &[u8], data_len: u64| {
+            let mut d = Vec::new();
+            d.extend(size.to_ne_bytes()); d.extend(next.to_ne_bytes()); d.push(empty as u8);
+            d.extend(name_len.to_ne_bytes()); d.extend(data_len.to_ne_bytes());
+            if !empty { d.extend_from_slice(name); d.extend([0u8; META]); d.extend_from_slice(data); }
+            d
+        };
+        let uri = small.names[1].as_bytes();
+        let n = uri.len() as u64;
+        let obj = |size: u64, next: u64| block(size, next, false, uri, n, b"abc", 3);
+        let l = obj(0, 0).len() as u64;
+        let m = u64::MAX;
+        vec![
+            ("crafted.valid", file(P, P + l, &[obj(l, 0), block(33, 0, true, b"", 0, b"", 0)])),
+            ("crafted.cycle.chain", file(P, 0, &[obj(l, P)])),
+            ("crafted.cycle.chain_of_two", file(P, 0, &[obj(l, P + l), obj(l, P)])),
+            ("crafted.cycle.state", file(P, 0, &[block(33 + 5 + 32 + 3, P, false, b"state", 5, b"abc", 3)])),
+            ("crafted.cycle.free_list", file(0, P, &[block(33, P, true, b"", 0, b"", 0)])),
+            ("crafted.sum.object_sizes", file(P, 0, &[obj(m, P + l), obj(m, 0)])),
+            ("crafted.sum.free_sizes", file(0, P, &[block(m, P + 33, true, b"", 0, b"", 0), block(m, 0, true, b"", 0, b"", 0)])),
+            ("crafted.sum.block_end", file(P, P + l, &[obj(m - 10, 0), block(5, 0, true, b"", 0, b"", 0)])),
+            ("crafted.sum.data_len", file(P, 0, &[block(l, 0, false, uri, n, b"abc", m)])),
+            ("crafted.sum.name_len", file(P, 0, &[block(l, 0, false, uri, m, b"abc", 3)])),
+            ("crafted.sum.both_lengths", file(P, 0, &[block(l, 0, false, uri, m - 40, b"abc", m - 40)])),
+        ]
+    }
+
     pub fn gen(rng: &mut Rng, tier: &str) -> Vec<(String, Value)> {
         let thorough = tier == "thorough";
         let mut cases = Vec::new();
@@ -795,6 +830,9 @@ mod archives {
             for x in &mut d[FILE_HDR..] { *x = 0 }
             cases.push(acase("tiny.header_empty_index", &small, &d));
         }
+        // hand-made one-bucket archives (first block at 46): cycles in a chain and in the free list, sizes and lengths
+        // whose sums leave the u64 range
+        for (class, d) in crafted(&small) { cases.push(acase(class, &small, &d)); }
         // arbitrary byte strings: empty, random, random behind the valid magic, behind a valid header, behind a valid
         // header and index
         cases.push(acase("random.empty", &small, &[]));
